@@ -14,3 +14,11 @@ Definition chk_setspec (table : list dsm) (ixs proj : list nat) (ki : nat) (expe
     end
   | _, _ => false
   end.
+
+(* one random history, everything at once: the callback trace of the keyed
+   combiner, and for each listed key (table entry, expected callbacks at the
+   steps of that key) the reference combiner and the set-style specification *)
+Definition chk_history (table : list dsm) (ixs proj : list nat) (expected : list (list (list N)))
+  (refs : list (nat * list (list (list N)))) : bool :=
+  chk_combine_proj table ixs proj (Ok expected) &&
+  forallb (fun kr => chk_reference table ixs proj (fst kr) (snd kr) && chk_setspec table ixs proj (fst kr) (snd kr)) refs.
